@@ -1,6 +1,7 @@
 import Driver.Util
 import Driver.C10
 import Driver.C05
+import Driver.Zone
 import TemporalModel.Model.FormatOps
 import TemporalModel.Model.Partial
 namespace Driver
@@ -46,6 +47,18 @@ def handleFmt (toks : List String) : Option String :=
     let showOff := dof != "never"
     let tzShow : Option Bool := if dtz == "never" then none else some (dtz == "critical")
     some (str (do let ns ← instantTryNew ns; zonedToString ns off showOff tzShow p su mo cal sh))
+  | ["f_zdts", ns, zone, dof, dtz, p, su, mo] => do
+    let ns ← int? ns; let tz ← zone? zone
+    let p ← precision? p; let su ← optUnit? su; let mo ← optMode? mo
+    let showOff := dof != "never"
+    let tzShow : Option Bool := if dtz == "never" then none else some (dtz == "critical")
+    let id : List Char := match tz with
+      | .named _ => "Syn/Zone".toList
+      | .offset m => Fmt.offsetMinutes m
+    some (str (do let ns ← instantTryNew ns; zonedToStringTz ns tz id showOff tzShow p su mo "iso8601" .auto))
+  | ["rt_zdts", ns, _] => do
+    let ns ← int? ns
+    some ((do let _ ← instantTryNew ns; pure (1 : Int) : Out Int).render toString)
   | "f_dur" :: rest => do
     let d ← dur? (rest.take 10)
     match rest.drop 10 with
